@@ -33,9 +33,10 @@ def tree_case(draw):
     js = list(jorder[:nj])
     present = draw(st.lists(st.sampled_from(PLACES), min_size=0, max_size=4, unique=True))
     imports = draw(st.lists(st.tuples(st.sampled_from(SPELLINGS), st.sampled_from(PLACES)), min_size=1, max_size=4))
-    mid_in = draw(st.sampled_from([None, "j0", "j1", "app"]))
+    mid_in = draw(st.sampled_from([None, "j0", "j1", "app", "j2"]))
+    amid_in = draw(st.sampled_from([None, None, "j0", "j1", "j2"]))
     data = draw(st.binary(max_size=24))
-    return {"js": js, "present": present, "imports": [list(i) for i in imports], "mid_in": mid_in, "data": data.hex(),
+    return {"js": js, "present": present, "imports": [list(i) for i in imports], "mid_in": mid_in, "amid_in": amid_in, "data": data.hex(),
             "kind": draw(st.sampled_from(["import", "import", "importstr", "importbin"])), "fault": draw(st.sampled_from([None, None, None, "dangling", "dir-first", "cycle"]))}
 
 
@@ -110,6 +111,13 @@ def check_tree(case):
             open(os.path.join(root, case["mid_in"], "mid.libsonnet"), "w").write("{via_mid: import 'lib.libsonnet'}")
             mid_spelling = "mid.libsonnet" if case["mid_in"] in js or case["mid_in"] == "app" else os.path.join(root, case["mid_in"], "mid.libsonnet")
             lines.append(f"  zmid: import {V.jsonnet_string(mid_spelling)},")  # evaluated after r0..rN (fields are manifested in sorted order)
+        amid_res_expected = None
+        if case.get("amid_in") and kind == "import" and case["amid_in"] != case["mid_in"]:
+            # a second nested importer, evaluated *before* r0..rN (its field sorts first)
+            open(os.path.join(root, case["amid_in"], "amid.libsonnet"), "w").write("{via_amid: import 'lib.libsonnet'}")
+            amid_spelling = os.path.join(root, case["amid_in"], "amid.libsonnet")
+            lines.insert(0, f"  amid: import {V.jsonnet_string(amid_spelling)},")
+            amid_res_expected = "pending"
         main = "{\n" + "\n".join(lines) + "\n}\n"
         open(os.path.join(root, "app", "main.jsonnet"), "w").write(main)
         args = []
@@ -145,6 +153,13 @@ def check_tree(case):
                     any_missing = True
                 elif os.path.isdir(os.path.join(root, mid_res)):
                     is_dir = True
+        amid_res = None
+        if amid_res_expected:
+            amid_res = resolve(os.path.join(root, case["amid_in"]), "lib.libsonnet", js, exists)
+            if amid_res is None:
+                any_missing = True
+            elif os.path.isdir(os.path.join(root, amid_res)):
+                is_dir = True
         should_fail = any_missing or fault in ("dangling", "cycle") or is_dir
         nt = len(present) >= 2 or fault is not None or len(set(expected)) >= 2
         if should_fail:
@@ -160,9 +175,12 @@ def check_tree(case):
             if any_missing and fault is None:
                 # the reported line is the line of a failing import in main (lines are 1-based; line 1 is '{')
                 m = re.search(r"--> .*main\.jsonnet:(\d+):(\d+)", failure_report)
-                bad_lines = {i + 2 for i, r in enumerate(resolved) if r is None}
+                off = 3 if amid_res_expected else 2
+                bad_lines = {i + off for i, r in enumerate(resolved) if r is None}
+                if amid_res_expected and amid_res is None:
+                    m = None
                 if case["mid_in"] and kind == "import" and (mid_res is None):
-                    bad_lines.add(len(expected) + 2)
+                    bad_lines.add(len(expected) + off)
                     if re.search(r"--> .*mid\.libsonnet:1:", failure_report):
                         m = None
                 if m and int(m.group(1)) not in bad_lines:
@@ -174,6 +192,8 @@ def check_tree(case):
         fields = dict((k, v) for k, v in got["o"])
         first_spelling = {}
         loads_expected = {}
+        if amid_res is not None:
+            first_spelling[os.path.realpath(os.path.join(root, amid_res))] = amid_res
         for i, (path, r) in enumerate(zip(expected, resolved)):
             place = os.path.relpath(os.path.realpath(os.path.join(root, r)), root).split(os.sep)[0]
             val = fields[f"r{i}"]
@@ -194,6 +214,12 @@ def check_tree(case):
                 exp = {"a": [V.num(b) for b in place.encode() + b":" + data]}
                 if not V.same(val, exp):
                     raise Violation("importbin-content", f"r{i}: importbin gives {V.show(val)[:200]}, expected the {len(data) + len(place) + 1} bytes: {what}")
+        if amid_res is not None:
+            place = os.path.relpath(os.path.realpath(os.path.join(root, amid_res)), root).split(os.sep)[0]
+            vd = dict((k, v) for k, v in dict((k, v) for k, v in fields["amid"]["o"])["via_amid"]["o"])
+            if vd["id"] != place:
+                raise Violation("import-resolution", f"import from {case['amid_in']}/amid.libsonnet resolved to {vd['id']!r}, model says {place!r}: {what}")
+            loads_expected[place] = 1
         if mid_res is not None:
             place = os.path.relpath(os.path.realpath(os.path.join(root, mid_res)), root).split(os.sep)[0]
             vd = dict((k, v) for k, v in dict((k, v) for k, v in fields["zmid"]["o"])["via_mid"]["o"])
@@ -209,5 +235,5 @@ def check_tree(case):
 
 
 CHECKS = [
-    Check("import_trees", check_tree, tree_case, quick=150, thorough=5000),
+    Check("import_trees", check_tree, tree_case, quick=250, thorough=5000),
 ]
